@@ -9,6 +9,7 @@ Model: `Whv/Model/AlphUtil.lean` (`node/pkg/alephium/utils.go` branch by branch,
 Contract-side facts (event declaration, attestation payload layout, handler offsets, Go constants) are
 re-extracted into `Whv/Gen/C11.lean` on every run and compared with the model here by `decide`.
 
+* `c11_pending_message_exact`  what the watcher keeps as pending for a fetched event is the event's decoded message, unadjusted
 * `c11_fit_decoded`       every event within the VAA ranges decodes to exactly its values, block time, chain id 255
 * `c11_unfit_rejected`    every event outside them is an error
 * `c11_accepted_exact`    (the general form) whatever is accepted has six fields of the right type whose numerals /
@@ -738,5 +739,19 @@ example : (Alph.handleConfirmed ⟨true, [7], "gov"⟩
     [(⟨⟨0, "b1", "t1", 0, "-", none⟩, ⟨[7], 2, 5, 9, 1, [1]⟩⟩, ⟨100, 0⟩), (⟨⟨1, "b0", "t0", 0, "-", none⟩, ⟨[8], 2, 5, 1, 1, [1]⟩⟩, ⟨90, 7⟩),
      (⟨⟨2, "b2", "t2", 0, "-", none⟩, ⟨[7], 2, 6, 8, 3, [1]⟩⟩, ⟨101, 16000⟩)]).1.map (fun c => ((Alph.pubOf c).seq, (Alph.pubOf c).ts, (Alph.pubOf c).cl))
     = [(9, 0, 1), (8, 16000, 3)] := by decide
+
+/-- **The pending message is the event's message.**  Whatever `handleUnconfirmedEvents` hands to the event loop for a page — under
+any answers of the token contracts, and for any watcher configuration: the conversion (`toUnconfirmedEvent`) does not read one —
+is an event of that page together with exactly the message its fields decode to.  No field (the consistency level, say) is
+adjusted on the way from a fetched event to a pending one; `c11_batch_block_timestamp` carries that through to the publication. -/
+theorem c11_pending_message_exact (ans : Bytes → Alph.TiAns) (evs : List Alph.Event) :
+    ∀ u ∈ Alph.handleUnconfirmed ans evs, u.ev ∈ evs ∧ u.ev.idx = 0 ∧ u.ev.conv = some u.msg := by
+  intro u hu
+  obtain ⟨e, he, hacc⟩ := List.mem_filterMap.1 hu
+  obtain ⟨h1, h2, h3, _⟩ := Alph.acceptEv_some hacc
+  exact ⟨h1 ▸ he, h1 ▸ h2, h1 ▸ h3⟩
+
+-- a transfer with consistency level 3: the pending message and the publication carry 3 (nothing in the model knows a network flag here)
+example : (Alph.handleUnconfirmed (fun _ => .apiErr) [⟨0, "b1", "t1", 0, "-", some ⟨[7], 2, 5, 9, 3, [1]⟩⟩]).map (·.msg.cl) = [3] := by decide
 
 end Whv.C11
